@@ -286,12 +286,14 @@ pub fn gen(rng: &mut Rng, focus: Focus) -> ClientScn {
         // a few never-answered calls whose deadlines lie years ahead
         calls.truncate(2);
         for c in calls.iter_mut() {
-            c.deadline = Dl::Secs(*rng.pick(&[400u64, 700, 1278, 1500, 3650]) * 86_400);
+            c.deadline = Dl::Secs(*rng.pick(&[365u64, 400, 400, 700, 1278, 1500, 3650]) * 86_400);
             c.abandon = None;
             // a call may also be the first thing that happens on a connection that has been
             // quiet for months (nothing has advanced the timer queue), or arrive while an
             // earlier call's timer has been pending for more than a year
-            c.start_ms = *rng.pick(&[0u64, 0, 0, 70, 200, 380, 440, 600]) * 86_400_000;
+            // (365 / 400 / 730: the very instants at which timers of calls started at 0 fire, so
+            // that a timer firing and a new request meet in one dispatch poll)
+            c.start_ms = *rng.pick(&[0u64, 0, 0, 70, 200, 365, 380, 400, 440, 600, 730]) * 86_400_000;
         }
         plans.clear();
         plans.push(vec![]);
@@ -331,7 +333,15 @@ pub fn gen(rng: &mut Rng, focus: Focus) -> ClientScn {
         spurious_permille: if focus == Focus::General && subscriber == 0 && rng.chance(120) { 100 } else { 0 },
         subscriber,
         long,
-        jumps: if focus == Focus::Deadlines && !long && rng.chance(250) { (0..rng.range(1, 2)).map(|_| (rng.range(0, 20), *rng.pick(&[1u64, 3, 10, 40, 200]))).collect() } else { vec![] },
+        jumps: if focus == Focus::Deadlines && !long && rng.chance(250) {
+            (0..rng.range(1, 2)).map(|_| (rng.range(0, 20), *rng.pick(&[1u64, 3, 10, 40, 200]))).collect()
+        } else if long && rng.chance(300) {
+            // a step of two days across one of the instants at which year-long timers fire:
+            // whatever was due inside it is overdue, not just due, when the endpoint runs again
+            vec![(*rng.pick(&[364u64, 399, 699, 729]) * 86_400_000, 2 * 86_400_000)]
+        } else {
+            vec![]
+        },
     }
 }
 
@@ -543,9 +553,16 @@ fn mk_response(id: u64, body: u64, err: bool) -> Response<u64> {
     Response {
         request_id: id,
         message: if err {
+            // the detail is peer-chosen text: mostly short, sometimes long, multi-byte or empty
             Err(ServerError::new(
                 std::io::ErrorKind::Other,
-                format!("e{body}"),
+                match body % 11 {
+                    3 => format!("e{body}{}", "\u{20ac}".repeat(400)),
+                    5 => format!("e{body}{}", "x".repeat(3000)),
+                    7 => format!("e{body}{}", "\u{e9}\u{1f980}".repeat(300)),
+                    9 => String::new(),
+                    _ => format!("e{body}"),
+                },
             ))
         } else {
             Ok(body)
@@ -889,6 +906,7 @@ pub fn check(scn: &ClientScn, log: &[Ev], horizon_reached: bool, sim: &Sim) -> V
     let mut read_eof: Option<u64> = None;
     let mut stall_depth = 0i32;
     let mut close_called: Option<u64> = None;
+    let mut close_completed: Option<u64> = None;
     let mut handles_dropped: Option<u64> = None;
     let mut teardown: Option<u64> = None;
     let mut idles: Vec<(u64, i64, bool /*writable*/)> = Vec::new();
@@ -984,6 +1002,9 @@ pub fn check(scn: &ClientScn, log: &[Ev], horizon_reached: bool, sim: &Sim) -> V
                 }
                 if *op == Op::Close {
                     close_called.get_or_insert(e.seq);
+                    if *res == Res::Ok {
+                        close_completed.get_or_insert(e.seq);
+                    }
                 }
                 if *op == Op::Next && *res == Res::Eof {
                     read_eof.get_or_insert(e.seq);
@@ -1446,6 +1467,10 @@ pub fn check(scn: &ClientScn, log: &[Ev], horizon_reached: bool, sim: &Sim) -> V
             }
             if dispatch_done.is_some() && close_called.is_none() && read_eof.is_none() {
                 v.push(viol("C10", "no-close", &[], "dispatch completed after handle drop without closing the transport".to_string()));
+            }
+            // a close that is still pending (it has to flush first) is not a close yet
+            if matches!(&dispatch_done, Some((_, r)) if r == "Ok") && close_called.is_some() && close_completed.is_none() && read_eof.is_none() && first_fail.is_none() {
+                v.push(viol("C10", "no-close", &["pending"], "dispatch completed Ok after handle drop although the transport's close had only returned Pending (what it still had to flush is never transmitted)".to_string()));
             }
         }
     }
